@@ -557,9 +557,11 @@ func (t *Throttle) Submit(f func() error) error {
 	pause := t.pause
 	pendingLimit := t.pendingLimit
 	pending := t.pending
-	tooMany := pendingLimit < pending
-	disabled := t.disabled
-	if !tooMany || disabled {
+	// A disabled throttle doesn't enforce its pending limit.  (It
+	// used to count the submission as pending and then refuse it
+	// anyway, so the count never came back down.)
+	tooMany := pendingLimit < pending && !t.disabled
+	if !tooMany {
 		t.pending++
 	}
 	t.Unlock()
